@@ -274,6 +274,9 @@ func checkDirXorFileField(t rel.Tuple) error {
 }
 
 func applyFilesFields(t rel.Tuple, path string, fs afero.Fs, dryRun bool) error {
+	if err := checkDirXorFileField(t); err != nil {
+		return err
+	}
 	if dir, has := t.Get(dirField); has {
 		d, err := getDirField(dir)
 		if err != nil {
@@ -281,10 +284,8 @@ func applyFilesFields(t rel.Tuple, path string, fs afero.Fs, dryRun bool) error 
 		}
 		return outputTupleDir(d, path, fs, dryRun)
 	}
-	if file, has := t.Get(fileField); has {
-		return outputFile(file, path, fs, dryRun)
-	}
-	return errFileOrDirMustExist
+	file, _ := t.Get(fileField)
+	return outputFile(file, path, fs, dryRun)
 }
 
 func getDirField(v rel.Value) (rel.Set, error) {
